@@ -392,3 +392,67 @@ Theorem find_lcm_spec (thr : Z) (a : list Z) :
     (nth k a 0 | nth k (find_lcm thr a) 0) /\ 0 < nth k (find_lcm thr a) 0
     /\ (nth k (find_lcm thr a) 0 = nth k a 0 \/ nth k (find_lcm thr a) 0 < thr).
 Proof. intro H. exact (find_lcm_spec_sec thr a H). Qed.
+
+(* ================================================================ no merge (line level) ================================================================ *)
+Definition is_obj (t : text) : bool := negb (text_eqb t PAIR00).
+Definition cnt (l : list text) : nat := length (filter is_obj l).
+
+Lemma fill_slots_in_range (rows : list wslot) : forall seq out, fill_slots seq rows = Some out ->
+  Forall (fun r => 0 <= ws_slot r < Z.of_nat (length seq)) rows.
+Proof.
+  induction rows as [|r rows IH]; intros seq out H; cbn in H; [constructor|].
+  destruct ((ws_slot r <? 0) || (Z.of_nat (length seq) <=? ws_slot r)) eqn:E; try discriminate.
+  apply orb_false_iff in E. destruct E as [E1 E2]. apply Z.ltb_ge in E1. apply Z.leb_gt in E2.
+  constructor; [lia|]. apply IH in H. rewrite set_nth_length in H. exact H.
+Qed.
+
+Lemma cnt_set_nth (l : list text) : forall i v,
+  (i < length l)%nat -> is_obj (nth i l PAIR00) = false -> is_obj v = true -> cnt (set_nth i v l) = S (cnt l).
+Proof.
+  unfold cnt. induction l as [|x l IH]; intros [|i] v Hi H0 Hv; cbn in *; try lia.
+  - rewrite H0, Hv. reflexivity.
+  - assert (E : length (filter is_obj (set_nth i v l)) = S (length (filter is_obj l))) by (apply IH; auto; lia).
+    destruct (is_obj x); cbn; rewrite E; reflexivity.
+Qed.
+
+Lemma fill_slots_cnt (rows : list wslot) : forall seq out,
+  Forall (fun r => is_obj (ws_value r) = true) rows ->
+  NoDup (map ws_slot rows) ->
+  Forall (fun r => is_obj (nth (Z.to_nat (ws_slot r)) seq PAIR00) = false) rows ->
+  fill_slots seq rows = Some out ->
+  cnt out = (cnt seq + length rows)%nat.
+Proof.
+  induction rows as [|r rows IH]; intros seq out Hv Hd He H.
+  - cbn in H. inversion H; subst. cbn. lia.
+  - pose proof (fill_slots_in_range _ _ _ H) as Hr.
+    cbn in H. destruct ((ws_slot r <? 0) || (Z.of_nat (length seq) <=? ws_slot r)); try discriminate.
+    inversion Hv as [|? ? Hv1 Hv2]; subst. inversion Hd as [|? ? Hd1 Hd2]; subst.
+    inversion He as [|? ? He1 He2]; subst. inversion Hr as [|? ? Hr1 Hr2]; subst.
+    rewrite (IH _ _ Hv2 Hd2) with (2 := H).
+    + rewrite cnt_set_nth by (auto; lia). cbn. lia.
+    + apply Forall_forall. intros r' Hin.
+      rewrite Forall_forall in He2, Hr2. specialize (He2 r' Hin). specialize (Hr2 r' Hin).
+      rewrite nth_set_nth_neq; [exact He2|].
+      intro E. apply Hd1. apply in_map_iff. exists r'. split; [|assumption].
+      apply Z2Nat.inj in E; lia.
+Qed.
+
+Lemma cnt_repeat00 (L : nat) : cnt (repeat PAIR00 L) = 0%nat.
+Proof. unfold cnt. induction L; cbn; auto. Qed.
+
+(* filling distinct slots of an all-00 line with non-00 ids gives exactly one object per row *)
+Theorem fill_slots_no_merge (rows : list wslot) (L : nat) (out : list text) :
+  Forall (fun r => text_eqb (ws_value r) PAIR00 = false) rows ->
+  NoDup (map ws_slot rows) ->
+  fill_slots (repeat PAIR00 L) rows = Some out ->
+  length (filter (fun t => negb (text_eqb t PAIR00)) out) = length rows.
+Proof.
+  intros Hv Hd H.
+  change (cnt out = length rows).
+  rewrite (fill_slots_cnt rows (repeat PAIR00 L) out); auto.
+  - rewrite cnt_repeat00. reflexivity.
+  - eapply Forall_impl; [|exact Hv]. intros r E. unfold is_obj. rewrite E. reflexivity.
+  - pose proof (fill_slots_in_range _ _ _ H) as Hr. rewrite repeat_length in Hr.
+    eapply Forall_impl; [|exact Hr]. intros r [R1 R2]. cbv beta.
+    rewrite nth_repeat. reflexivity.
+Qed.
